@@ -42,7 +42,7 @@
        pair of segments in the list": not only the listed edges, and edges of
        every kind -- an E line is an edge whatever its alignment looks like).
 
-   THE RELAXED READING (PathOutcomes(D, Relaxed, o), SetAccepts) collects what
+   THE RELAXED READING (Outcomes(D, o), SetMayFail / SetMayAnswer) collects what
    can also be defended from the GFA2 text, which never defines "between":
      - cand: the implied edge may be looked for among ALL E lines joining the
        two oriented segments (gfapy) instead of among the dovetails only;
@@ -71,6 +71,20 @@ MergedTags(ls) == UNION {Rng(ls[i].tags) : i \in DOMAIN ls}
 \* line l gives a tag of the group g a different value
 Contradicts(g, l) ==
   \E i \in DOMAIN g.tags, j \in DOMAIN l.tags : g.tagn[i] = l.tagn[j] /\ g.tags[i] # l.tags[j]
+
+-----------------------------------------------------------------------------
+(* DELIVERY of a line to a document: a further line of an existing group is
+   merged into it (items appended, tags united) unless it contradicts a tag,
+   in which case it is refused and the document is unchanged.                *)
+SelfRef(l) == l.name \in RefIds(l)
+Deliver(D, l) ==
+  IF l.rt \in {"O", "U"} /\ \E i \in DOMAIN D : D[i].rt = l.rt /\ D[i].name = l.name
+  THEN LET i == CHOOSE i \in DOMAIN D : D[i].rt = l.rt /\ D[i].name = l.name IN
+       IF Contradicts(D[i], l) THEN [d |-> D, ok |-> FALSE]
+       ELSE [d |-> [D EXCEPT ![i] = MergeGroup(@, l)], ok |-> TRUE]
+  ELSE [d |-> Append(D, l), ok |-> TRUE]
+RECURSIVE DeliverAll(_, _)
+DeliverAll(D, ls) == IF ls = <<>> THEN D ELSE DeliverAll(Deliver(D, Head(ls)).d, Tail(ls))
 
 -----------------------------------------------------------------------------
 (* THE GRAPH OF A DOCUMENT *)
@@ -164,6 +178,9 @@ WalksOf(D, R, items, stack) == FoldItems(D, R, {Good(<<>>, FALSE, FALSE)}, items
 
 \* every outcome the reading R allows for the ordered group named o
 PathOutcomes(D, R, o) == WalksOf(D, R, LineNamed(D, o).refs, {o})
+\* every outcome some defensible reading allows (the direction of an edge without
+\* agreeing geometry is either the written one throughout, or free)
+Outcomes(D, o) == PathOutcomes(D, Relaxed, o) \cup PathOutcomes(D, [Relaxed EXCEPT !.free = FALSE], o)
 
 \* the strict answer.  (Its outcomes differ at most in the orientation given to
 \* a supplied hairpin edge, which joins x to y read either way: any of them.)
@@ -213,7 +230,7 @@ InducedSet(D, u) ==
 \* sets is cyclic (a definition the GFA2 text neither allows nor forbids)
 SetMayFail(D, u) ==
   \/ Unresolved(D, u) \/ BadSetItem(D, u) \/ SetInPath(D, u) \/ CyclicSets(D, u)
-  \/ \E p \in PathsReached(D, u) : \E r \in PathOutcomes(D, Relaxed, p) : ~r.ok
+  \/ \E p \in PathsReached(D, u) : \E r \in Outcomes(D, p) : ~r.ok
 \* a set is an acceptable answer: the segments mentioned and all edges between them
 SetMayAnswer(D, u) == ~BadSetItem(D, u) /\ ~SetInPath(D, u)
 =============================================================================
